@@ -29,6 +29,10 @@ type zvC11Uni struct {
 	P2      string `json:"p2_differs_in"`
 	P3      string `json:"p3_differs_in"`
 	NPfx    int    `json:"prefixes"`
+	// Limit is the size of the identifier space (the package variable maxUint32, which the repository's own test lowers
+	// too): 3 = exactly as many identifiers as there are distinct attribute sets, so allocation must never fail;
+	// 1, 2 = exhaustion is reachable, allocation may fail only while that many identifiers are really in use
+	Limit uint32 `json:"identifier_space,omitempty"`
 }
 
 type zvC11Case struct {
@@ -130,6 +134,10 @@ func zvC11Differ(u zvC11Uni, a, b int) string {
 // evaluates the oracle on the last operation.
 func zvC11Step(r *vh.Run, u zvC11Uni, hist []zvC11Op) (string, []zvC11Op, bool) {
 	zvoFresh()
+	if u.Limit > 0 {
+		defer func(o uint32) { maxUint32 = o }(maxUint32)
+		maxUint32 = u.Limit
+	}
 	c := zvC11Case{u, hist}
 	rec := &zvoRec{}
 	a := New(nil, zvC11Session(u.Session), filter.NewAcceptAllFilterChain())
@@ -190,9 +198,22 @@ func zvC11Step(r *vh.Run, u zvC11Uni, hist []zvC11Op) (string, []zvC11Op, bool) 
 					inUse[id] = true
 				}
 			}
-			if err != nil {
-				viol(vh.Sig("clause", "alloc_failed"), "AddPath(%s, path %d) failed with %q while %d identifiers are in use", pfxS, o.X, err.Error(), len(inUse))
+			if err != nil && u.Limit > 0 && uint32(len(inUse)) >= u.Limit {
+				// the identifier space really is exhausted: nothing is announced, nothing may have changed
+				if last {
+					r.Count("genuine_exhaustion", 1)
+				}
+				if calls := rec.take(); len(calls) != 0 {
+					viol(vh.Sig("clause", "calls_on_failed_add"), "AddPath(%s, path %d) failed (%v) but the client was called: %v", pfxS, o.X, err, calls)
+				}
 				break
+			}
+			if err != nil {
+				viol(vh.Sig("clause", "alloc_failed"), "AddPath(%s, path %d) failed with %q while %d identifiers are in use (identifier space %d)", pfxS, o.X, err.Error(), len(inUse), u.Limit)
+				break
+			}
+			if last && u.Limit > 0 && uint32(len(inUse))+1 == u.Limit {
+				r.Count("allocation_of_last_free_identifier", 1)
 			}
 			present[o.P][cl] = true
 			calls := rec.take()
@@ -375,25 +396,39 @@ func zvC11Universes(thorough bool) []zvC11Uni {
 		for _, p2 := range []string{"otc", "unknown_attr", "aggregator", "atomic_aggregate"} {
 			for _, p3 := range []string{"community", "as_path_content", "med"} {
 				if thorough || (p3 == "community" && (s == "ibgp" || s == "ebgp")) {
-					big = append(big, zvC11Uni{s, p2, p3, 3})
+					big = append(big, zvC11Uni{s, p2, p3, 3, 3})
 				}
 				if !thorough {
-					small = append(small, zvC11Uni{s, p2, p3, 2})
+					small = append(small, zvC11Uni{s, p2, p3, 2, 3})
 				}
 			}
 		}
 	}
-	return append(big, small...) // the expensive ones first: they spread evenly over the shards
+	for i := range big {
+		big[i].Limit = 3
+	}
+	for i := range small {
+		small[i].Limit = 3
+	}
+	// universes in which the identifier space can really run out
+	var tight []zvC11Uni
+	for _, s := range []string{"ibgp", "ebgp"} {
+		for _, l := range []uint32{1, 2} {
+			tight = append(tight, zvC11Uni{s, "otc", "community", 2, l})
+		}
+	}
+	return append(append(big, small...), tight...) // the expensive ones first: they spread evenly over the shards
 }
 
 var zvC11Required = []string{"same_hash_different_attrs_on_one_prefix", "withdrawal_with_sibling_on_prefix", "release_of_shared_identifier",
-	"identifier_shared_by_prefixes", "withdrawals_checked"}
+	"identifier_shared_by_prefixes", "withdrawals_checked", "genuine_exhaustion", "allocation_of_last_free_identifier"}
 
 func TestVerifC11(t *testing.T) {
 	r := vh.Start(t, "C11")
 	defer r.Finish()
 	zvoTune()
 	r.Rule("per universe (session kind ibgp|rs-client|ebgp|rr-client x attribute in which path 2 differs from path 0 outside ComputeHash x attribute in which path 3 differs), " +
+		"identifier space 3 (= number of distinct attribute sets: allocation must never fail) plus universes with identifier space 1 and 2 (allocation may fail only while that many identifiers are in use), " +
 		"BFS over all AddPath/RemovePath histories of 4 Loc-RIB paths (0 and 1 attribute-identical) on 3 prefixes (quick: 2 prefixes for every universe, 3 prefixes for 8 of them) against a real add-path AdjRIBOut until the canonical state " +
 		"(model, table, peer view, private pathIDManager maps and counters; identifiers ranked) set closes; evaluations = universes explored")
 	r.Require(zvC11Required...)
